@@ -91,7 +91,8 @@ GNext == SubmitNew \/ SubmitCancel \/ SubmitModify \/ Step \/ Toggle("enable", E
 \* one line per path: every outcome the specification allows
 Emit ==
   PrintT(<<"GEN", ToJson([path |-> hist,
-                          outs |-> SetToSeq({[sched |-> x.sched, exp |-> ProjEnv(x.m)] : x \in S})])>>)
+                          outs |-> SetToSeq({[sched |-> x.sched, exp |-> ProjEnv(x.m),
+                                             f3 |-> \E a \in 1..Len(x.m.books) : ~C12_OnGrid(x.m.books[a])] : x \in S})])>>)
 
 \* ---- the environment-level clauses on the model ---------------------------
 Inv_C10_L2AsOfLastStep == \A x \in S : C10_L2AsOfLastStep(x.m)
